@@ -39,7 +39,16 @@ def run(chk):
                                       'rule': cov2.get('rule'), 'distinct_nontrivial': cov2.get('distinct_nontrivial')}
     chk.assumptions += ['messages already dequeued by a proxy thread at the instant of isolation are outside the model (thread race)',
                         'PROCESS_ADDED is not in the statement\'s list of events restricted to admitted peers and is not judged; disability events are covered at the commander level (./check C04)']
+    # closed loop (harness/c16free.py: real proxies, commanders, fake Supervisors): no XML-RPC ever leaves an instance for a peer it holds ISOLATED
+    import c16free
+    c16free.liveness_stage(chk, 'C13:free:', [{}], 400, 4000)
 
 
 def replay(chk, path):
-    replay_schedule(chk, path, ['C13-', 'C07-walk', 'C07-local-isolated'])
+    import json
+    c = json.load(open(path)); r = c.get('replay', c)
+    if r.get('stage') == 'free':
+        import c16free
+        c16free.liveness_replay(chk, r, 'C13:free:')
+    else:
+        replay_schedule(chk, path, ['C13-', 'C07-walk', 'C07-local-isolated'])
